@@ -10,6 +10,7 @@ COMMON_ASSUMPTIONS = [
     'loops over unbounded sequences are cut points: invariant "carried state = Spec(prefix)" with one generic iteration proved; termination not proved',
     'calls to functions under contract are replaced by the callee contract (summary); helpers listed under inlined_helpers are executed in place',
     'axiomatised externals (numpy, math) as listed in trusted_base',
+    'proof rule of the certificate back end (pyvc/polycert.py): if every h_i = 0 is a conjunct of the path condition and A - B = sum q_i*h_i is an identity (confirmed by z3 as a closed formula over fresh symbols), then A = B',
 ]
 
 
@@ -45,14 +46,18 @@ def native_sweep(script, what, quick, thorough):
 REGISTRY = {
     'C10': dict(module='contracts.C10', level='proof',
                 native=native_sweep('c10_farfield.py', 'independent radiation integral (current moments at pulse points, image currents), dBi vs V/m per polarisation from the printed tables, power sum, sqrt(power)/distance scaling, 360-degree periodicity, zenith independence', 25, 800),
-                undecided=['the far field is the radiation integral of the solved pulse currents (vectorised image loop) -- native sweep only',
-                           '360-degree periodicity and zenith/azimuth independence -- native sweep only'],
-                trusted=['np.log / np.sqrt as uninterpreted functions with the listed axioms; the slice is executed for one direction (1x1 arrays): the statements are elementwise numpy operations']),
+                undecided=['the radiation sum is decided on arrays of 1 zenith x 2 azimuths x 2 pulses only (shape-bounded, values symbolic); other shapes, the 2 % agreement with the exact integral over straight half-segments and the real-ground branch: native sweep only',
+                           '360-degree periodicity and zenith/azimuth independence (properties of cos/sin, uninterpreted here) -- native sweep only'],
+                trusted=['np.log / np.sqrt / cos / sin as uninterpreted functions with the listed axioms; the tail slice is executed for one direction (1x1 arrays): the statements are elementwise numpy operations',
+                         'numpy semantics as modelled on small object arrays: broadcasting, basic indexing, boolean-mask row stores, np.tile / repeat / reshape / sum(axis) / meshgrid / .T (executed by numpy itself on arrays of symbolic objects)',
+                         'a grounded pulse lies on the plane (z = 0 exactly; the code accepts |z| < 1e-3 of the shortest segment)']),
     'C11': dict(module='contracts.C11', level='proof',
                 native=native_sweep('c11_ground.py', 'currents over real ground == ideal ground; medium split; far medium beyond every reflection point; sigma = 1e12 vs ideal ground (1..2 media, linear/circular boundary, radials)', 40, 1500),
-                undecided=['pattern converges to ideal ground as conductivity grows (limit; vectorised Fresnel branch)',
-                           'splitting a medium / adding a far medium leaves the pattern unchanged (vectorised Fresnel branch) -- native sweep only'],
-                trusted=['call graph over-approximated by method name and arity']),
+                undecided=['pattern converges to ideal ground as conductivity grows: only the limit point is decided (Z = 0 gives the ideal-ground coefficients v = 1, h = 0); the rate and the rest of the real-ground sum: native sweep only',
+                           'splitting a medium / adding a far medium: decided for the medium lookup (1..3 media, one direction, one pulse: shape-bounded) and as lemmas over its contract; the remaining statements of the real-ground branch (phase, height of the selected medium, summation) -- native sweep only'],
+                trusted=['call graph over-approximated by method name and arity',
+                         'np.argmin(bool array, axis=0) = first False; principal complex square root as an uninterpreted function with w*w = z, Re w >= 0; np.log uninterpreted',
+                         'a vanishing Fresnel denominator (non-finite numpy result, no exception) ends the path: outside this contract']),
     'C12': dict(module='contracts.C12', level='proof',
                 native=native_sweep('c12_pulses.py', 'pulse count from the geometry alone, gap-free numbering in object order, pulses on segment joints, grounded ends, end points perturbed by 0.4x / 2x the matching tolerance, closed loops, stars (random wire graphs, free space and ground)', 300, 8000),
                 undecided=[],
@@ -63,7 +68,7 @@ REGISTRY = {
                 native=native_sweep('c13_segments.py', 'equal / tapered (types 1,2,3, min/max limits, growth <= 2.1, mirror) segmentation, arc and helix points, transformations through main() vs. independently transformed coordinates', 250, 6000),
                 undecided=[],
                 trusted=['cos^2+sin^2=1, cos 0 = 1, sin 0 = 0, sqrt axioms; np.array of an unbounded list of rows keeps the rows',
-                         'taper1/taper2 (search loops over k with for-else) and Helix.__init__ are NOT under contract: bounded stand-in only']),
+                         'taper1/taper2: the search loops over k (for-else) that choose the number of tapered segments are NOT under contract (bounded stand-in only); their emitting loops and the effective minimum are']),
     'C20': dict(module='contracts.C20', level='proof',
                 native=native_sweep('c20_failsafe.py', 'about 400 argument lists: every option with every field zero / negative / huge / tiny / nan / inf / text / empty, wrong arity, unknown tags, contradictory options, degenerate and duplicate geometry; outcome classified as report / one-line diagnostic / usage error', 100000, 100000),
                 undecided=['finiteness of the numbers produced by the numeric stage (singular or ill-conditioned systems, non-finite inputs): recorded findings C20-nonfinite, C20-singular',
@@ -102,7 +107,8 @@ REGISTRY = {
                 trusted=['list.sort(key) / sorted(): result is a permutation ordered by the key (axiom)']),
     'C04': dict(module='contracts.C04', level='other',
                 native=native_sweep('c04_nearfield.py', 'near field at 150..300 wavelengths vs the reported far field (same power and distance, 1.5 %), E/H = 376.7 ohm, transversality; bent and branched antennas, different radii, reversed wires, ideal ground with wires grounded at either end', 40, 1500),
-                undecided=['psi_near_field_56 and the finite differences of the scalar potential, the curl (H), the power scaling, convergence to the far field: bounded native sweep only'],
+                undecided=['psi_near_field_56 and the finite differences of the scalar potential, the curl (H), the power scaling, convergence to the far field: bounded native sweep only',
+                           'the image-pass mask is decided for 2 pulses (shape-bounded) and its use by a syntactic obligation (every accumulation of the pass is taken through [cond])'],
                 trusted=['psi replaced by its contract: an uninterpreted function of its arguments (vec2, vecv, k, scale, pulse)',
                          'numpy fancy indexing with an index array acts elementwise like the scalar index used in the unit']),
     'C07': dict(module='contracts.C07', level='proof',
